@@ -203,8 +203,12 @@ pub fn ops_strings(ops: &[Op]) -> Vec<String> {
 }
 
 /// compare one observation with the oracle. `sound`/`complete` select the owned directions.
-pub fn compare(obs: &Obs, e: &Expected, q: &Queries, sound: bool, complete: bool, hist: &[Op], out: &mut Exec) {
-    let opsv: Vec<String> = hist.iter().map(|o| o.show()).collect();
+pub fn compare(obs: &Obs, e: &Expected, q: &Queries, sound: bool, complete: bool, hist: &[Op], nm: Naming, out: &mut Exec) {
+    let mut opsv: Vec<String> = hist.iter().map(|o| o.show()).collect();
+    if nm != Naming::Numeric {
+        // the history is printed with the harness names; say how they were turned into slots
+        opsv.push(format!("[slot naming: {nm:?}]"));
+    }
     for (n, (_, _, l, r)) in q.qs.iter().enumerate() {
         out.evaluations += 1;
         if obs.eqs[n] && !e.eqs[n] && sound {
@@ -249,6 +253,8 @@ fn spaces(tier: Tier) -> Vec<Space> {
             Space { alpha: "SHARE", depth: 3 },
             Space { alpha: "SAME", depth: 2 },
             Space { alpha: "SAME", depth: 3 },
+            Space { alpha: "SELFX", depth: 2 },
+            Space { alpha: "SELFX", depth: 3 },
             Space { alpha: "A1", depth: 2 },
             Space { alpha: "CORE", depth: 3 },
             Space { alpha: "T3", depth: 2 },
@@ -269,6 +275,8 @@ fn spaces(tier: Tier) -> Vec<Space> {
             Space { alpha: "SHARE", depth: 3 },
             Space { alpha: "SAME", depth: 2 },
             Space { alpha: "SAME", depth: 3 },
+            Space { alpha: "SELFX", depth: 2 },
+            Space { alpha: "SELFX", depth: 3 },
             Space { alpha: "T3", depth: 2 },
             Space { alpha: "BIND", depth: 2 },
             Space { alpha: "CORE", depth: 3 },
@@ -278,6 +286,7 @@ fn spaces(tier: Tier) -> Vec<Space> {
             Space { alpha: "A2", depth: 2 },
             Space { alpha: "SHARE", depth: 4 },
             Space { alpha: "SAME", depth: 4 },
+            Space { alpha: "SELFX", depth: 4 },
             Space { alpha: "MICRO", depth: 5 },
             Space { alpha: "CORE", depth: 4 },
         ],
@@ -334,21 +343,33 @@ impl Prop for Cong {
             Tier::Quick => Flips::NoneAndAll,
             Tier::Thorough => Flips::All,
         };
-        cong_exec(&ops, flips, self.sound, !self.sound)
+        // the oracle does not depend on how the harness names become slots: the cheap segments are also run with
+        // slot names that look exactly like the library's next fresh slot and with textual names in reverse order
+        let name = &segs[seg].seg.name;
+        let cheap = name.ends_with("^1") || ["MICRO^2", "SAME^2", "SHARE^2", "A0^2", "MICRO^3", "SAME^3"].contains(&name.as_str()) || (tier == Tier::Thorough && ["CORE^2", "BIND^2", "T3^2", "SELF^2"].contains(&name.as_str()));
+        if cheap {
+            cong_exec_named(&ops, flips, self.sound, !self.sound, &[Naming::Numeric, Naming::FreshNext, Naming::TextRev])
+        } else {
+            cong_exec(&ops, flips, self.sound, !self.sound)
+        }
     }
 }
 
 pub fn cong_exec(ops: &[Op], flips: Flips, sound: bool, complete: bool) -> Exec {
+    cong_exec_named(ops, flips, sound, complete, &[Naming::Numeric])
+}
+
+pub fn cong_exec_named(ops: &[Op], flips: Flips, sound: bool, complete: bool, namings: &[Naming]) -> Exec {
     let mut out = Exec::default();
     let terms = tracked_terms(ops);
     let q = std::sync::Arc::new(queries_for(&terms));
     let e = expected(ops, &q);
     out.goals = goals_of(ops, &q, &e);
-    for hist in variants(ops, flips) {
+    for (hist, nm) in variants(ops, flips).into_iter().flat_map(|h| namings.iter().map(move |n| (h.clone(), *n))) {
         let h2 = hist.clone();
         let q2 = q.clone();
         let r = fresh_thread(move || {
-            let (obs, st) = run_and_observe(&h2, &q2, Naming::Numeric);
+            let (obs, st) = run_and_observe(&h2, &q2, nm);
             drop(st);
             obs
         });
@@ -361,6 +382,11 @@ pub fn cong_exec(ops: &[Op], flips: Flips, sound: bool, complete: bool) -> Exec 
             }
             Ok(obs) => {
                 if let Some((_, site)) = &obs.panic {
+                    if nm != Naming::Numeric {
+                        // under the numeric naming a panic is owned by C08; a panic that only appears under another
+                        // naming is a wrong answer of this property's subject (names must not matter)
+                        out.fail("panic-under-renaming", format!("history panics under slot naming {nm:?}: {site}"), format!("history: {}", hist.iter().map(|o| o.show()).collect::<Vec<_>>().join(" ; ")), &ops_strings(&hist));
+                    }
                     out.aborted.push(site.clone());
                     out.outcomes.push("aborted".into());
                     continue;
@@ -372,7 +398,7 @@ pub fn cong_exec(ops: &[Op], flips: Flips, sound: bool, complete: bool) -> Exec 
                 }
                 out.fps.push(obs.fingerprint());
                 let before = out.failures.len();
-                compare(&obs, &e, &q, sound, complete, &hist, &mut out);
+                compare(&obs, &e, &q, sound, complete, &hist, nm, &mut out);
                 let nt = obs.eqs.iter().filter(|b| **b).count();
                 if obs.last_op_changed {
                     out.nontrivial += 1;
